@@ -24,6 +24,7 @@ A receiver may have a reference position (scenario "ref": ["lat,lon" | "", ..] -
 import json
 import os
 import shutil
+import math
 import signal
 import socket
 import sqlite3
@@ -407,7 +408,13 @@ def events_of(k, sc, res):
             if ser not in serial_rx:
                 serial_rx[ser] = id_owner.get(tuple(idb), 0)
             st = md.get("system_timestamp", 0.0)
-            mem.append({"rx": serial_rx[ser], "id": idb, "t": _ms(st, s0), "tu": _us(st, s0)})
+            rssi, gn = md.get("rssi"), md.get("gnss_timestamp")
+            rs = isinstance(rssi, (int, float)) and math.isfinite(rssi)
+            gs = isinstance(gn, (int, float)) and math.isfinite(gn)
+            gd = int(round((gn - st) * 1e3)) if gs else 0
+            mem.append({"rx": serial_rx[ser], "id": idb, "t": _ms(st, s0), "tu": _us(st, s0),
+                        "rs": rs, "rv": int(round(rssi * 1e3)) if rs else 0,
+                        "gs": gs, "gd": max(-2 ** 30, min(2 ** 30, gd))})
         return mem
 
     def num(v, base=10):
@@ -465,7 +472,9 @@ def events_of(k, sc, res):
     ev = [{"e": "scenario", "sc": k, "w": sc["w"], "nrx": n,
            "df_present": sc["df_present"], "df_list": sc["df_list"],
            "ac_present": sc["ac_present"], "ac_list": sc["ac_list"], "ref": refs,
-           "serials": [serial_rx[s] for s in serial_rx], "junk": junk, "died": bool(res.get("died"))}]
+           "serials": [serial_rx[s] for s in serial_rx], "junk": junk, "died": bool(res.get("died")),
+           # second of the UTC day at the time origin; -1 when the run may have crossed midnight
+           "sod": (s0 % 86400) if (s0 % 86400) < 86400 - 900 else -1}]
     for r, frames in enumerate(res["sent"], start=1):
         for p, (fr, dec, at) in enumerate(frames, start=1):
             ev.append({"e": "sent", "rx": r, "pos": p, "fr": fr, "dec": bool(dec), "at": at})
